@@ -2,12 +2,13 @@
 """writes /verif/seeded/README.md: one row per stored seeded change (from meta.json / notes.md)"""
 import glob, json, os, re
 rows = []
+brows = []
 for d in sorted(glob.glob('/verif/seeded/*-*')):
     if not os.path.exists(d + '/meta.json'):
         continue
     m = json.load(open(d + '/meta.json'))
     name = os.path.basename(d)
-    pid = name.split('-')[0].replace('R2', '')
+    benign = m.get('kind') == 'behaviour-preserving' or name.startswith('B-')
     notes = open(d + '/notes.md').read() if os.path.exists(d + '/notes.md') else ''
     title = notes.strip().splitlines()[0].lstrip('# ').strip() if notes.strip() else ''
     title = re.sub(r'^(Seed|Change|C\d\d)[^-–]*[-–]\s*', '', title)
@@ -17,6 +18,11 @@ for d in sorted(glob.glob('/verif/seeded/*-*')):
         if ck.get('exit') == 1 and ck.get('violations', 0) > 0:
             caught.append(p + ' (' + ', '.join(k.replace('kind=', '') for k in ck.get('kinds', [])[:3]) + ')')
     tests_ok = '100%' in str(m.get('tests', ''))
+    if benign:
+        alarms = [p for p, ck in m.get('checks', {}).items() if ck.get('exit') != 0]
+        verdict = ('silent on all %d checks' % len(m.get('checks', {}))) if not alarms else '**ALARM: ' + ', '.join(alarms) + '**'
+        brows.append((name, ', '.join(files), title.replace('|', '/')[:110], 'green' if tests_ok else str(m.get('tests'))[:30], verdict))
+        continue
     rows.append((name, ', '.join(files), title.replace('|', '/')[:110], 'green' if tests_ok else str(m.get('tests'))[:30],
                  f"{m.get('demo_changed_exit')}/{m.get('demo_unchanged_exit')}", '; '.join(caught) or '**not caught**'))
 with open('/verif/seeded/README.md', 'w') as f:
@@ -28,5 +34,12 @@ with open('/verif/seeded/README.md', 'w') as f:
     for r in rows:
         f.write('| ' + ' | '.join(r) + ' |\n')
     n = len(rows); c = sum(1 for r in rows if 'not caught' not in r[5])
-    f.write(f'\n{c} of {n} stored changes are caught by the quick check of the property they were written against.\n')
+    f.write(f'\n{c} of {n} stored property-breaking changes are caught by the quick check of the property they were written '
+            'against (ids: plain = round 1, R2- = round 2, R3- = the "interaction" round).\n')
+    f.write('\n## Behaviour-preserving changes (must NOT be reported)\n\nRefactorings, renames of private names, equivalent '
+            'micro-optimisations and reworded messages written by sub-agents; all 18 quick checks are run against each.\n\n'
+            '| id | file(s) | change | suite | result |\n|---|---|---|---|---|\n')
+    for r in brows:
+        f.write('| ' + ' | '.join(r) + ' |\n')
+    f.write(f"\n{sum(1 for r in brows if 'silent' in r[4])} of {len(brows)} behaviour-preserving changes leave all checks silent.\n")
 print(len(rows), 'rows')
